@@ -28,7 +28,18 @@ Live(v, mf) == <<1, v, mf>>
 
 Modelled == {"push_back", "push_back_m", "emplace_back_c", "emplace_back_v", "insert", "insert_m", "emplace_c", "emplace_v",
              "insert_n", "resize", "resize_v", "reserve", "shrink", "assign_n", "erase", "erase_rng", "pop_back", "clear",
-             "ctor_def", "ctor_n", "ctor_nv", "dtor"}
+             "ctor_def", "ctor_n", "ctor_nv", "dtor",
+             \* contiguous (pointer / initializer_list) ranges; other iterator categories are L1 / L0 only
+             "assign_rng", "assign_il", "opeq_il", "append_rng", "append_il", "insert_rng", "insert_il", "ctor_rng", "ctor_il",
+             \* two-container routines
+             "ctor_copy", "ctor_move", "assign_copy", "assign_copy_f", "assign_move", "assign_move_f", "swap",
+             "append_copy", "append_move", "cmp"}
+
+\* range calls are modelled for pointer ranges only (kind 4); the kind argument sits at a different index per call
+RangeKindOK(ln) ==
+  CASE ln.op \in {"assign_rng", "append_rng"} -> ln.a[1] = 4
+    [] ln.op \in {"insert_rng", "ctor_rng"}   -> ln.a[2] = 4
+    [] OTHER -> TRUE
 
 (***************************************************************************)
 (* Instructions                                                            *)
@@ -136,6 +147,9 @@ RunUc(cfg, s, items, i) ==
        ELSE LET undo == [j \in 1..(i - 1) |-> IDtor(items[j].r, items[j].i)]
                 h == RunSeq(cfg, r.s, undo, 1)
             IN [s |-> h.s, exc |-> r.exc]
+
+InlRegion(c) == IF c = "A" THEN 1 ELSE 2
+Hd(x) == IF x.p THEN [p |-> TRUE, cap |-> x.cap, sz |-> Len(x.e), st |-> StN(x), al |-> x.al] ELSE [p |-> FALSE, cap |-> 0, sz |-> 0, st |-> 0, al |-> 0]
 
 (***************************************************************************)
 (* Script fragments                                                        *)
@@ -319,19 +333,260 @@ EraseRangeImpl(cfg, c, x, R, f, l) ==
   IF f = l THEN <<IRet(f)>>
   ELSE MoveLeft(cfg, R, l, x.sz, f) \o <<ISetSz(c, x.sz - (l - f))>> \o DestroyRange(R, x.sz - (l - f), x.sz) \o <<IRet(f)>>
 
+\* ---- contiguous source ranges: element j of the caller's range is the external cell <<4, j>>
+UCopyExt(R2, dlo, lo, hi) == IUc(Seqq(lo, hi, LAMBDA j : ICtor(R2, dlo + (j - lo), 1, 4, j, 0)))
+
+\* assign_with_range, forward overload (3575)
+AssignRange(cfg, c, x, R, id, n) ==
+  IF x.cap < n THEN
+    IF cfg.max < n THEN <<IThrow("length_error")>>
+    ELSE LET nc == GrowTo(cfg, x.cap, n)
+             R2 == 10 + id
+         IN <<IAlloc(id, nc, x.al), ITry(<<UCopyExt(R2, 0, 0, n)>>, <<IDealloc(id, nc, x.al)>>)>>
+            \o ResetData(c, x, R, id, nc, n)
+  ELSE IF x.sz < n THEN
+    Seqq(0, x.sz, LAMBDA i : IAsg(R, i, 1, 4, i)) \o <<UCopyExt(R, x.sz, x.sz, n), ISetSz(c, n)>>
+  ELSE
+    Seqq(0, n, LAMBDA i : IAsg(R, i, 1, 4, i))
+    \o (IF n < x.sz THEN <<ISetSz(c, n)>> \o DestroyRange(R, n, x.sz) ELSE <<>>)
+
+\* append_range, forward overload (3763); kind = how the old elements are relocated
+AppendRange(cfg, c, x, R, id, n, kind) ==
+  IF x.cap - x.sz < n THEN
+    IF cfg.max - x.sz < n THEN <<IThrow("length_error")>>
+    ELSE LET nc == GrowTo(cfg, x.cap, x.sz + n)
+             R2 == 10 + id
+         IN <<IAlloc(id, nc, x.al),
+              ITry(<<UCopyExt(R2, x.sz, 0, n),
+                     ITry(<<UMove(cfg, kind, R, 0, x.sz, R2, 0)>>, DestroyRange(R2, x.sz, x.sz + n))>>,
+                   <<IDealloc(id, nc, x.al)>>)>>
+            \o ResetData(c, x, R, id, nc, x.sz + n) \o <<IRet(x.sz)>>
+  ELSE <<UCopyExt(R, x.sz, 0, n), ISetSz(c, x.sz + n), IRet(x.sz)>>
+
+\* insert_range_helper (3990), pos < sz, n > 0
+InsertRangeHelper(cfg, c, x, R, id, pos, n) ==
+  IF x.cap - x.sz < n THEN
+    IF cfg.max - x.sz < n THEN <<IThrow("length_error")>>
+    ELSE LET nc == GrowTo(cfg, x.cap, x.sz + n)
+             R2 == 10 + id
+         IN <<IAlloc(id, nc, x.al),
+              ITry(<<UCopyExt(R2, pos, 0, n),
+                     ITry(<<UMove(cfg, MoveKind(cfg), R, 0, pos, R2, 0)>>, DestroyRange(R2, pos, pos + n)),
+                     ITry(<<UMove(cfg, MoveKind(cfg), R, pos, x.sz, R2, pos + n)>>, DestroyRange(R2, 0, pos + n))>>,
+                   <<IDealloc(id, nc, x.al)>>)>>
+            \o ResetData(c, x, R, id, nc, x.sz + n) \o <<IRet(pos)>>
+  ELSE
+    LET tail == x.sz - pos IN
+    IF tail < n THEN
+      <<UCopyExt(R, x.sz, tail, n), ISetSz(c, x.sz + n - tail),
+        ITry(<<UMove(cfg, MoveKind(cfg), R, pos, x.sz, R, x.sz + n - tail), ISetSz(c, x.sz + n),
+               ITry(Seqq(0, tail, LAMBDA j : IAsg(R, pos + j, 1, 4, j)),
+                    MoveLeft(cfg, R, x.sz + n - tail, x.sz + n, pos) \o DestroyRange(R, x.sz + n - tail, x.sz + n)
+                    \o <<ISetSz(c, x.sz + n - tail)>>)>>,
+             <<[t |-> "dtor_to_size", c |-> c, R |-> R, from |-> x.sz]>>),
+        IRet(pos)>>
+    ELSE
+      Shift(cfg, c, x, R, pos, n)
+      \o <<ITry(Seqq(0, n, LAMBDA j : IAsg(R, pos + j, 1, 4, j)),
+                MoveLeft(cfg, R, pos + n, x.sz + n, pos) \o DestroyRange(R, x.sz, x.sz + n) \o <<ISetSz(c, x.sz)>>),
+           IRet(pos)>>
+
+\* insert_range, forward overload (4103) behind the public insert (which returns early for an empty range)
+InsertRange(cfg, c, x, R, id, pos, n) ==
+  IF n = 0 THEN <<IRet(pos)>>
+  ELSE IF pos # x.sz THEN InsertRangeHelper(cfg, c, x, R, id, pos, n)
+  ELSE IF n = 1 THEN AppendElement(cfg, c, x, R, id, <<1, 4, 0, 0>>, pos)
+  ELSE AppendRange(cfg, c, x, R, id, n, MoveKind(cfg))
+
+(***************************************************************************)
+(* Two-container routines.  d = destination (this), s = source (other);    *)
+(* xd / xs their headers, Rd / Rs their buffers, Nd / Ns inline capacities *)
+(***************************************************************************)
+SetDefault(s, Ns) == <<ISetHd(s, Ns, 0), ISetSz(s, 0)>>                      \* set_default (2694)
+Adopt(d, xs) == <<ISetHd(d, xs.cap, xs.st), ISetSz(d, xs.sz)>>
+\* move_allocation_pointer (2980): reset_data to the source's buffer, then the source becomes default
+StealAssign(d, s, xd, xs, Rd, Ns) ==
+  DestroyRange(Rd, 0, xd.sz) \o (IF xd.st > 0 THEN <<IDealloc(xd.st, xd.cap, xd.al)>> ELSE <<>>) \o Adopt(d, xs) \o SetDefault(s, Ns)
+
+\* overwrite [0, min) by assignment from the source, then construct the rest / destroy the surplus, no reallocation
+InPlaceFrom(cfg, d, xd, xs, Rd, Rs, akind, ckind) ==
+  IF xd.sz < xs.sz THEN
+    Seqq(0, xd.sz, LAMBDA i : IAsg(Rd, i, akind, Rs, i)) \o <<UMove(cfg, ckind, Rs, xd.sz, xs.sz, Rd, xd.sz)>>
+  ELSE
+    Seqq(0, xs.sz, LAMBDA i : IAsg(Rd, i, akind, Rs, i)) \o DestroyRange(Rd, xs.sz, xd.sz)
+
+\* copy constructors (3268)
+CtorCopy(cfg, d, xs, Rs, id, al, Nd) ==
+  LET n == xs.sz IN
+  (IF Nd < n THEN <<IAlloc(id, n, al), ITry(<<UMove(cfg, 1, Rs, 0, n, 10 + id, 0)>>, <<IDealloc(id, n, al)>>),
+                    ISetP(d, TRUE, al), ISetHd(d, n, id)>>
+   ELSE <<UMove(cfg, 1, Rs, 0, n, InlRegion(d), 0), ISetP(d, TRUE, al), ISetHd(d, Nd, 0)>>)
+  \o <<ISetSz(d, n)>>
+
+\* move constructors: move_initialize (3189-3246) and the allocator-extended forms (3318-3365)
+CtorMove(cfg, d, s, xs, Rs, id, aid, Nd, Ns) ==
+  LET al == IF cfg.isStd THEN 0 ELSE IF aid # 0 /\ ~cfg.ae THEN aid ELSE xs.al
+      n  == xs.sz
+      mk == MoveKind(cfg)
+      elementwise(alBlk) ==
+        (IF Nd < n THEN <<IAlloc(id, n, alBlk), ITry(<<UMove(cfg, mk, Rs, 0, n, 10 + id, 0)>>, <<IDealloc(id, n, alBlk)>>),
+                          ISetP(d, TRUE, al), ISetHd(d, n, id)>>
+         ELSE <<UMove(cfg, mk, Rs, 0, n, InlRegion(d), 0), ISetP(d, TRUE, al), ISetHd(d, Nd, 0)>>) \o <<ISetSz(d, n)>>
+      steal == <<ISetP(d, TRUE, al)>> \o Adopt(d, xs) \o SetDefault(s, Ns)
+  IN
+  IF aid # 0 /\ ~cfg.isStd /\ ~cfg.ae /\ aid # xs.al THEN elementwise(al)
+  ELSE IF Nd = 0 /\ Ns = 0 THEN steal
+  ELSE IF Ns <= Nd THEN (IF Nd < xs.cap THEN steal ELSE elementwise(al))
+  ELSE IF xs.st > 0 THEN steal ELSE elementwise(xs.al)
+
+\* copy_assign / copy_assign_default (2840-2960)
+AssignCopy(cfg, d, xd, xs, Rd, Rs, id, Nd) ==
+  LET n  == xs.sz
+      special == cfg.pocca /\ ~cfg.isStd /\ ~cfg.ae /\ xd.al # xs.al
+      alAfter == IF cfg.pocca /\ ~cfg.isStd THEN xs.al ELSE xd.al
+      setal == <<ISetP(d, TRUE, alAfter)>>
+  IN
+  IF special THEN
+    IF Nd < n THEN
+      <<IAlloc(id, n, xs.al), ITry(<<UMove(cfg, 1, Rs, 0, n, 10 + id, 0)>>, <<IDealloc(id, n, xs.al)>>)>>
+      \o ResetData(d, xd, Rd, id, n, n) \o setal
+    ELSE IF xd.st > 0 THEN
+      <<UMove(cfg, 1, Rs, 0, n, InlRegion(d), 0)>> \o DestroyRange(Rd, 0, xd.sz)
+      \o <<IDealloc(xd.st, xd.cap, xd.al), ISetHd(d, Nd, 0), ISetSz(d, n)>> \o setal
+    ELSE InPlaceFrom(cfg, d, xd, xs, Rd, Rs, 1, 1) \o <<ISetSz(d, n)>> \o setal
+  ELSE
+    (IF xd.cap < n THEN
+       LET nc == GrowTo(cfg, xd.cap, n) IN
+       <<IAlloc(id, nc, xd.al), ITry(<<UMove(cfg, 1, Rs, 0, n, 10 + id, 0)>>, <<IDealloc(id, nc, xd.al)>>)>>
+       \o ResetData(d, xd, Rd, id, nc, n)
+     ELSE InPlaceFrom(cfg, d, xd, xs, Rd, Rs, 1, 1) \o <<ISetSz(d, n)>>)
+    \o setal
+
+\* move_assign dispatch (3168-3188), move_assign_default (2988-3113), move_assign_unequal_no_propagate (3118)
+AssignMove(cfg, d, s, xd, xs, Rd, Rs, id, Nd, Ns) ==
+  LET n  == xs.sz
+      mk == MoveKind(cfg)
+      movable == cfg.isStd \/ cfg.pocma \/ cfg.ae \/ xd.al = xs.al
+      alAfter == IF cfg.pocma /\ ~cfg.isStd THEN xs.al ELSE xd.al
+      setal == <<ISetP(d, TRUE, alAfter)>>
+      steal == StealAssign(d, s, xd, xs, Rd, Ns)
+      inplace == InPlaceFrom(cfg, d, xd, xs, Rd, Rs, mk, mk) \o <<ISetSz(d, n)>>
+      realloc(nc, alBlk) == <<IAlloc(id, nc, alBlk), ITry(<<UMove(cfg, mk, Rs, 0, n, 10 + id, 0)>>, <<IDealloc(id, nc, alBlk)>>)>>
+                            \o ResetData(d, xd, Rd, id, nc, n)
+  IN
+  IF movable THEN
+    (IF Nd = 0 /\ Ns = 0 THEN steal
+     ELSE IF Ns <= Nd THEN
+       (IF Nd < xs.cap THEN steal
+        ELSE IF Nd < xd.cap THEN
+          <<UMove(cfg, mk, Rs, 0, n, InlRegion(d), 0)>> \o DestroyRange(Rd, 0, xd.sz)
+          \o <<IDealloc(xd.st, xd.cap, xd.al), ISetHd(d, Nd, 0), ISetSz(d, n)>>
+        ELSE inplace)
+     ELSE
+       (IF xs.st > 0 THEN steal
+        ELSE IF xd.cap < n \/ (xd.st > 0 /\ ~AllocEq(cfg, xd.al, xs.al)) THEN
+          realloc(IF xd.cap < n THEN GrowTo(cfg, xd.cap, n) ELSE xd.cap, xs.al)
+        ELSE inplace))
+    \o setal
+  ELSE
+    (IF xd.cap < n THEN realloc(GrowTo(cfg, xd.cap, n), xd.al) ELSE inplace)
+
+\* std::swap of two elements through a stack temporary
+SwapCells(cfg, Ra, Rb, i) ==
+  <<ICtor(3, 0, MoveKind(cfg), Ra, i, 0),
+    ITry(<<IAsg(Ra, i, MoveKind(cfg), Rb, i), IAsg(Rb, i, MoveKind(cfg), 3, 0)>>, <<IDtor(3, 0)>>),
+    IDtor(3, 0)>>
+
+\* swap_elements (4431): a = the shorter container
+SwapElements(cfg, a, b, xa, xb, Ra, Rb) ==
+  LET body == [k \in 1..(3 * xa.sz) |-> SwapCells(cfg, Ra, Rb, (k - 1) \div 3)[((k - 1) % 3) + 1]] IN
+  body \o <<UMove(cfg, MoveKind(cfg), Rb, xa.sz, xb.sz, Ra, xa.sz)>> \o DestroyRange(Rb, xa.sz, xb.sz)
+  \o <<ISetSz(a, xb.sz), ISetSz(b, xa.sz)>>
+
+\* swap dispatch (4549-4600), swap_default (4453), swap_unequal_no_propagate (4500)
+SwapImpl(cfg, d, s, xd, xs, Rd, Rs, id, N) ==
+  IF d = s THEN
+    \* self: heap -> swap_allocation with itself; inline -> every element is swapped with itself
+    (IF xd.st > 0 \/ (N = 0 /\ (cfg.isStd \/ cfg.pocs \/ cfg.ae)) THEN <<>>
+     ELSE [k \in 1..(3 * xd.sz) |-> SwapCells(cfg, Rd, Rd, (k - 1) \div 3)[((k - 1) % 3) + 1]])
+  ELSE
+  LET lo == IF xd.cap < xs.cap THEN d ELSE s
+      hi == IF lo = d THEN s ELSE d
+      xl == IF lo = d THEN xd ELSE xs
+      xh == IF lo = d THEN xs ELSE xd
+      Rl == IF lo = d THEN Rd ELSE Rs
+      Rh == IF lo = d THEN Rs ELSE Rd
+      swappable == cfg.isStd \/ cfg.pocs \/ cfg.ae
+      exch == <<ISetHd(lo, xh.cap, xh.st), ISetSz(lo, xh.sz), ISetHd(hi, xl.cap, xl.st), ISetSz(hi, xl.sz)>>
+      elems == IF xl.sz < xh.sz THEN SwapElements(cfg, lo, hi, xl, xh, Rl, Rh) ELSE SwapElements(cfg, hi, lo, xh, xl, Rh, Rl)
+      als == IF cfg.pocs /\ ~cfg.isStd THEN <<ISetP(lo, TRUE, xh.al), ISetP(hi, TRUE, xl.al)>> ELSE <<>>
+  IN
+  IF swappable \/ xd.al = xs.al THEN
+    (IF N = 0 /\ swappable THEN exch
+     ELSE IF xl.st > 0 THEN exch
+     ELSE IF xh.st > 0 THEN
+       <<UMove(cfg, MoveKind(cfg), Rl, 0, xl.sz, InlRegion(hi), 0)>> \o DestroyRange(Rl, 0, xl.sz)
+       \o <<ISetHd(lo, xh.cap, xh.st), ISetHd(hi, N, 0), ISetSz(lo, xh.sz), ISetSz(hi, xl.sz)>>
+     ELSE elems)
+    \o als
+  ELSE
+    IF xl.cap < xh.sz THEN
+      LET nc == GrowTo(cfg, xl.cap, xh.sz) IN
+      <<IAlloc(id, nc, xl.al),
+        ITry(<<UMove(cfg, MoveKind(cfg), Rh, 0, xh.sz, 10 + id, 0),
+               ITry(Seqq(0, xl.sz, LAMBDA i : IAsg(Rh, i, MoveKind(cfg), Rl, i)) \o DestroyRange(Rh, xl.sz, xh.sz),
+                    DestroyRange(10 + id, 0, xh.sz))>>,
+             <<IDealloc(id, nc, xl.al)>>)>>
+      \o DestroyRange(Rl, 0, xl.sz) \o (IF xl.st > 0 THEN <<IDealloc(xl.st, xl.cap, xl.al)>> ELSE <<>>)
+      \o <<ISetHd(lo, nc, id), ISetSz(lo, xh.sz), ISetSz(hi, xl.sz)>>
+    ELSE elems
+
+\* append (const small_vector&) / append (small_vector&&) (5815-5840): a forward range over the source's cells
+AppendFrom(cfg, d, s, xd, xs, Rd, Rs, id, kind, clearSrc) ==
+  LET n == xs.sz IN
+  (IF xd.cap - xd.sz < n THEN
+     IF cfg.max - xd.sz < n THEN <<IThrow("length_error")>>
+     ELSE LET nc == GrowTo(cfg, xd.cap, xd.sz + n)
+              R2 == 10 + id
+          IN <<IAlloc(id, nc, xd.al),
+               ITry(<<UMove(cfg, kind, Rs, 0, n, R2, xd.sz),
+                      ITry(<<UMove(cfg, StrongKind(cfg), Rd, 0, xd.sz, R2, 0)>>, DestroyRange(R2, xd.sz, xd.sz + n))>>,
+                    <<IDealloc(id, nc, xd.al)>>)>>
+             \o ResetData(d, xd, Rd, id, nc, xd.sz + n)
+   ELSE <<UMove(cfg, kind, Rs, 0, n, Rd, xd.sz), ISetSz(d, xd.sz + n)>>)
+  \o (IF clearSrc THEN <<ISetSz(s, 0)>> \o DestroyRange(Rs, 0, n) ELSE <<>>)
+
+Script2(cfg, pre, ln, id) ==
+  LET d  == ln.c
+      s  == ln.s
+      xd == Hd(pre[d])
+      xs == Hd(pre[s])
+      Rd == IF xd.st > 0 THEN 10 + xd.st ELSE InlRegion(d)
+      Rs == IF xs.st > 0 THEN 10 + xs.st ELSE InlRegion(s)
+      Nd == NOf(cfg, d)
+      Ns == NOf(cfg, s)
+      a  == ln.a
+      op == ln.op
+  IN
+  CASE op = "ctor_copy" ->
+         CtorCopy(cfg, d, xs, Rs, id, IF cfg.isStd THEN 0 ELSE IF a[1] # 0 THEN a[1] ELSE IF cfg.soccc = 1 THEN xs.al + 50 ELSE xs.al, Nd)
+    [] op = "ctor_move" -> CtorMove(cfg, d, s, xs, Rs, id, a[1], Nd, Ns)
+    [] op \in {"assign_copy", "assign_copy_f"} -> IF d = s THEN <<>> ELSE AssignCopy(cfg, d, xd, xs, Rd, Rs, id, Nd)
+    [] op \in {"assign_move", "assign_move_f"} -> IF d = s THEN <<>> ELSE AssignMove(cfg, d, s, xd, xs, Rd, Rs, id, Nd, Ns)
+    [] op = "swap" -> SwapImpl(cfg, d, s, xd, xs, Rd, Rs, id, Nd)
+    [] op = "append_copy" -> AppendFrom(cfg, d, s, xd, xs, Rd, Rs, id, 1, FALSE)
+    [] op = "append_move" -> AppendFrom(cfg, d, s, xd, xs, Rd, Rs, id, StrongKind(cfg), TRUE)
+    [] op = "cmp" -> <<>>
+
 (***************************************************************************)
 (* Executing a call: builds the script, runs it, assembles a trace line    *)
 (***************************************************************************)
-Hd(x) == IF x.p THEN [p |-> TRUE, cap |-> x.cap, sz |-> Len(x.e), st |-> StN(x), al |-> x.al] ELSE [p |-> FALSE, cap |-> 0, sz |-> 0, st |-> 0, al |-> 0]
-
 MemOfState(cfg, pre) ==
   LET cells(x, n) == [j \in 1..n |-> IF x.p /\ j <= Len(x.e) THEN Live(x.e[j][1], x.e[j][2]) ELSE Raw]
       inl == (1 :> (IF pre.A.p /\ ~Heap(pre.A) THEN cells(pre.A, cfg.na) ELSE [j \in 1..cfg.na |-> Raw]))
              @@ (2 :> (IF pre.B.p /\ ~Heap(pre.B) THEN cells(pre.B, cfg.nb) ELSE [j \in 1..cfg.nb |-> Raw]))
       hp(c) == IF pre[c].p /\ Heap(pre[c]) THEN ((10 + pre[c].st) :> cells(pre[c], pre[c].cap)) ELSE <<>>
   IN inl @@ hp("A") @@ hp("B")
-
-InlRegion(c) == IF c = "A" THEN 1 ELSE 2
 
 Script(cfg, pre, ln, id) ==
   LET c  == ln.c
@@ -355,6 +610,21 @@ Script(cfg, pre, ln, id) ==
     [] op = "reserve"        -> Reserve(cfg, c, x, R, id, a[1])
     [] op = "shrink"         -> Shrink(cfg, c, x, R, id, N, InlRegion(c))
     [] op = "assign_n"       -> AssignCopies(cfg, c, x, R, id, a[1], 4, 100)
+    [] op = "assign_rng"     -> AssignRange(cfg, c, x, R, id, a[2])
+    [] op \in {"assign_il", "opeq_il"} -> AssignRange(cfg, c, x, R, id, a[1])
+    [] op = "append_rng"     -> AppendRange(cfg, c, x, R, id, a[2], StrongKind(cfg)) \o <<IRet(-1)>>      \* append returns *this
+    [] op = "append_il"      -> AppendRange(cfg, c, x, R, id, a[1], StrongKind(cfg)) \o <<IRet(-1)>>
+    [] op = "insert_rng"     -> InsertRange(cfg, c, x, R, id, a[1], a[3])
+    [] op = "insert_il"      -> InsertRange(cfg, c, x, R, id, a[1], a[2])
+    [] op \in {"ctor_rng", "ctor_il"} ->
+         \* forward-range constructor (3483): exact allocation, checked against max_size()
+         LET al == IF cfg.isStd THEN 0 ELSE IF a[1] = 0 THEN 1 ELSE a[1]
+             n  == IF op = "ctor_rng" THEN a[3] ELSE a[2]
+         IN IF n > N THEN
+              IF n > cfg.max THEN <<IThrow("length_error")>>
+              ELSE <<IAlloc(id, n, al), ITry(<<UCopyExt(10 + id, 0, 0, n)>>, <<IDealloc(id, n, al)>>),
+                     ISetP(c, TRUE, al), ISetHd(c, n, id), ISetSz(c, n)>>
+            ELSE <<UCopyExt(InlRegion(c), 0, 0, n), ISetP(c, TRUE, al), ISetHd(c, N, 0), ISetSz(c, n)>>
     [] op = "erase"          -> EraseRangeImpl(cfg, c, x, R, a[1], a[1] + 1)
     [] op = "erase_rng"      -> EraseRangeImpl(cfg, c, x, R, a[1], a[2])
     [] op = "pop_back"       -> <<ISetSz(c, x.sz - 1), IDtor(R, x.sz - 1)>>
@@ -388,9 +658,10 @@ Exec(cfg, pre, ln) ==
       id   == IF "newid" \in DOMAIN ln THEN ln.newid ELSE maxid + 1
       s0   == [hd |-> [A |-> Hd(pre.A), B |-> Hd(pre.B)], mem |-> MemOfState(cfg, pre),
                blk |-> {<<pre.blocks[j][1], pre.blocks[j][2], pre.blocks[j][3]>> : j \in 1..Len(pre.blocks)},
-               tmp |-> <<Raw, Raw>>, ext |-> (100 :> (IF Len(ln.v) > 0 THEN ln.v[1] ELSE 0)),
+               tmp |-> <<Raw, Raw>>,
+               ext |-> [i \in (0..(Len(ln.v) - 1)) \cup {100} |-> IF i = 100 THEN (IF Len(ln.v) > 0 THEN ln.v[1] ELSE 0) ELSE ln.v[i + 1]],
                evs |-> <<>>, cnt |-> 0, k1 |-> ln.k[1], k2 |-> ln.k[2], fk |-> <<0, 0>>, ret |-> -1]
-      r    == RunSeq(cfg, s0, Script(cfg, pre, ln, id), 1)
+      r    == RunSeq(cfg, s0, IF ln.s = "-" THEN Script(cfg, pre, ln, id) ELSE Script2(cfg, pre, ln, id), 1)
       s    == r.s
       blks == LET ids == {b[1] : b \in s.blk}
                   RECURSIVE Ord(_, _)
@@ -400,7 +671,8 @@ Exec(cfg, pre, ln) ==
                                       IN Ord(S \ {m}, Append(acc, <<b[1], b[2], b[3]>>))
               IN Ord(ids, <<>>)
   IN [t |-> "op", op |-> ln.op, c |-> ln.c, s |-> ln.s, a |-> ln.a, v |-> ln.v, k |-> ln.k, fk |-> s.fk, nf |-> s.cnt,
-      out |-> IF r.exc = "" THEN "ok" ELSE r.exc, ret |-> IF r.exc = "" THEN s.ret ELSE -1, ret2 |-> -1,
+      out |-> IF r.exc = "" THEN "ok" ELSE r.exc,
+      ret |-> IF r.exc # "" THEN -1 ELSE IF ln.op = "cmp" THEN ln.ret ELSE s.ret, ret2 |-> -1,
       evs |-> s.evs, evtrunc |-> FALSE,
       post |-> [A |-> ContOf(cfg, s, "A"), B |-> ContOf(cfg, s, "B")], blocks |-> blks, can |-> TRUE]
 
